@@ -8,6 +8,7 @@ package kcp
 import (
 	"encoding/binary"
 	"fmt"
+	"net"
 	"sync"
 	"sync/atomic"
 	"testing"
@@ -38,7 +39,9 @@ func oobPayload(peer int, dir byte, serial uint32, n int) []byte {
 func TestVerifC19(t *testing.T) {
 	rec := newRec(t, "C19")
 	defer rec.finish(t)
-	rec.alsoOwn = []string{"C01"} // "never alters, corrupts ... the reliable stream"
+	// "never alters, corrupts ... the reliable stream": the stream's content oracle,
+	// and the pool sanitizer (a buffer with two owners is how a stream gets corrupted)
+	rec.alsoOwn = []string{"C01", "C15 pooled buffer"}
 	env := rec.env
 	var caseIdx int64
 	for q := 0; q < env.pickN(96, 2400); q++ {
@@ -295,10 +298,45 @@ func runC19(t *testing.T, rec *vrec, sc *c11Scenario, rng *vrng, q int) {
 	// packets are out-of-band: they must not reach the old session's handler
 	if len(peers) > 0 && sc.Net.DelayMax <= 500 {
 		old := peers[0]
+		// keep copies of the earlier conversation's last out-of-band datagrams:
+		// the network may deliver duplicates of them late
+		var staleMu sync.Mutex
+		var stale [][]byte
+		oldAddr, lAddr := old.addr.String(), w.laddr.String()
+		capture := func(from, to net.Addr, data []byte, kind string) {
+			if kind == "out-of-band" && from.String() == oldAddr && to.String() == lAddr {
+				staleMu.Lock()
+				stale = append(stale, data)
+				if len(stale) > 6 {
+					stale = stale[1:]
+				}
+				staleMu.Unlock()
+			}
+		}
+		w.onObserved.Store(&capture)
+		for i := 0; i < 3; i++ {
+			b := oobPayload(old.id, 0, serial.Add(1), 20+i)
+			ok := fmt.Sprintf("%d/%d", old.id, 0)
+			book.mu.Lock()
+			if book.sent[ok] == nil {
+				book.sent[ok] = map[uint64]int{}
+			}
+			book.sent[ok][hashBytes(b)]++
+			book.mu.Unlock()
+			old.sess.SendOOB(b)
+		}
 		time.Sleep(time.Duration(sc.Net.DelayMax+50) * time.Millisecond)
+		w.onObserved.Store(nil)
 		old.closedByReconnect.Store(true)
 		old.sess.Close()
+		time.Sleep(2 * time.Millisecond) // the closed session's transmit goroutine has ended (virtual time: everything else ran until blocked)
+		// the wire decoder of the old server session must not judge the datagrams of
+		// its successor (the new one is registered when it is accepted)
+		w.mu.Lock()
+		delete(w.flows, lAddr+">"+oldAddr)
+		w.mu.Unlock()
 		np := w.newPeer(500, 0, 0, old.conv+0x7000000, 100, old.conn)
+		w.watch(np.sess, fmt.Sprintf("client-%d", np.id), np.addr, w.laddr, cfg, np.up)
 		k := fmt.Sprintf("%d/%d", np.id, 0)
 		for i := 0; i < 4; i++ {
 			b := oobPayload(np.id, 0, serial.Add(1), 40+i)
@@ -315,6 +353,26 @@ func runC19(t *testing.T, rec *vrec, sc *c11Scenario, rng *vrng, q int) {
 		// out-of-band packets of the earlier conversation are still in flight:
 		// they must neither reach the new session nor stall or replace it
 		lim := time.Now().Add(time.Duration(sc.Net.HealAt)*time.Millisecond + 5*time.Minute)
+		// ... and late duplicates of them arrive once the new conversation is
+		// established at the listener
+		for np.accepts.Load() == 0 && time.Now().Before(lim) {
+			time.Sleep(20 * time.Millisecond)
+		}
+		staleMu.Lock()
+		late := stale
+		staleMu.Unlock()
+		if np.accepts.Load() > 0 && len(late) > 0 {
+			before := w.accepted.Load()
+			for _, d := range late {
+				w.hub.inject(old.addr, lAddr, d)
+				time.Sleep(3 * time.Millisecond)
+			}
+			time.Sleep(500 * time.Millisecond)
+			rec.count("stale_oob_of_earlier_conversation_injected", int64(len(late)))
+			if w.accepted.Load() != before || old.accepts.Load() > 1 {
+				viol("C19 late out-of-band datagram of an earlier conversation replaced the session of the conversation that followed it", "new conversation %#x accepted %d time(s), earlier conversation %#x accepted %d time(s), %d stale datagrams", np.conv, np.accepts.Load(), old.conv, old.accepts.Load(), len(late))
+			}
+		}
 		for (np.upRead.Load() != int64(np.upLen) || np.dnRead.Load() != int64(np.downLen)) && time.Now().Before(lim) {
 			time.Sleep(100 * time.Millisecond)
 		}
